@@ -95,7 +95,7 @@ pub fn run_case(case: &Case, rep: &mut Report) -> Option<(String, String)> {
 fn short_case(case: &Case) -> String {
     let s = format!("{:?}", case);
     if s.len() > 300 {
-        format!("{}..", &s[..300])
+        format!("{}..", s.chars().take(300).collect::<String>())
     } else {
         s
     }
